@@ -741,7 +741,10 @@ def gt_select(ctx: Ctx) -> RuleResult:
                     steps[k] = s
                     order.append(k)
                 elif t in (p, f"len({p}) > 0", f"len({p})") or (p in names_in(s.test) and k not in steps):
-                    if t == p or t.startswith("len("):
+                    if (t == p or t.startswith("len(")) and k == "exclude":
+                        steps[k] = s  # an empty exclusion excludes nothing, exactly like an absent one
+                        order.append(k)
+                    elif t == p or t.startswith("len("):
                         r.ob(False)
                         r.violate(f"DiGraphEx.make_subgraph: step '{k}' guarded by truthiness of {p}", f.loc(s),
                                   "an explicitly empty selection must select nothing, not everything ('is not None' is the "
